@@ -263,13 +263,19 @@ def handoversOK (G : Graph) (ids : List Nat) (hs : List (Nat × Nat)) : Bool :=
          | .call g' _ => g' == g
          | _ => false))))
 
-/-- the names of `prog` (position `k`, `k+1`, …) at the ascending positions `ids` -/
+/-- `x` once for every leading element of `ids` equal to `k`, and the remaining ids -/
+def takeEq (x : String) (k : Nat) : List Nat → List String × List Nat
+  | [] => ([], [])
+  | i :: is => if i == k then let r := takeEq x k is; (x :: r.1, r.2) else ([], i :: is)
+
+/-- the names of `prog` (position `k`, `k+1`, …) at the non-decreasing positions `ids`; a position may be repeated: a
+    parameter-keyed function (`Cap.paramModes`, assert-forwarding helpers) occurs once per constant argument -/
 def pickNames : List String → Nat → List Nat → List String
   | [], _, _ => []
   | _ :: _, _, [] => []
-  | x :: xs, k, i :: is => if i == k then x :: pickNames xs (k + 1) is else pickNames xs (k + 1) (i :: is)
+  | x :: xs, k, ids => let r := takeEq x k ids; r.1 ++ pickNames xs (k + 1) r.2
 
-/-- the slice's name table is the program's name table at the slice's (ascending) ids -/
+/-- the slice's name table is the program's name table at the slice's (non-decreasing) ids -/
 def namesAgree (prog : List String) (ids : List Nat) (names : Array String) : Bool :=
   pickNames prog 0 ids == names.toList
 
